@@ -1054,7 +1054,12 @@ fn main() {
     // which that process removes when it is done
     let owns_scratch = std::env::var_os("VERIF_CLI_SCRATCH").is_none();
     if owns_scratch {
-        std::env::set_var("VERIF_CLI_SCRATCH", format!("{}/{}", ops::CLI_SCRATCH, std::process::id()));
+        let mut base = format!("{}/{}", ops::CLI_SCRATCH, std::process::id());
+        if std::fs::create_dir_all(&base).is_err() {
+            // no usable /dev/shm: any other scratch place will do
+            base = format!("{}/prql-sim-cli/{}", std::env::temp_dir().display(), std::process::id());
+        }
+        std::env::set_var("VERIF_CLI_SCRATCH", base);
     }
     let code = match args.get(1).map(|s| s.as_str()) {
         Some("run") => cmd_run(&args),
